@@ -45,7 +45,8 @@ CHECKS = {
                      "(failed target retried next run, never twice in a run, dependents not treated as up to date), -k builds every buildable requested "
                      "target, no `do` record after a non-zero `done` within a process, contents after exit 0.",
                 note="Serial (-j1) enumeration is complete for this world and list length <=3; other graph shapes are covered only through C01/C02's fail world. "
-                     "Parallel interleavings are explored by the E2 scenarios."),
+                     "Second family: driver scripts run every sequence of <=3 redo / redo-ifchange commands inside ONE run. Parallel half (E2): redo -j2 [-k] "
+                     "with the failing leaf, every schedule with <= b deviations."),
     "C06": dict(engine="E2", category="model_checking", design_ref="DESIGN.md §4 C06, appendix A",
                 technique="stateless model checking of 2-3 concurrent real invocations under a controlled scheduler; interval-overlap and commit-before-handover oracle on the event order",
                 text="Two or three top-level invocations contending for one target, for a shared dependency, redo against redo-ifchange, and an invocation that takes an error "
@@ -120,7 +121,7 @@ CHECKS = {
                      "redo-ifcreate (conditionally and unconditionally) and of {redo-ifchange, redo, edit} on redo-always worlds with 2 and 3 dependents; "
                      "rebuilt iff the watched path came into existence, never for unrelated edits; ifcreate of an existing path fails; the always-target "
                      "runs exactly once in every run that needs it and not otherwise.",
-                note="-j1 here; the 'exactly once at -j2' part is an E2 scenario. Flat worlds."),
+                note="Parallel part (E2): the always-target with 2-3 dependents requested concurrently at -j2/-j3, all schedules <= b deviations. Flat worlds."),
     "C15": dict(engine="E4 (+E1/E2 end-to-end spellings)", category="exploration", design_ref="DESIGN.md §4 C15",
                 technique="exhaustive enumeration of all strings <= n over {a,b,.,/} and all (cwd,t,base) triples in a real tree with symlinks; kernel stat identity as ground truth",
                 text="normpath over every string of length <=6 (quick) / <=8 (thorough, 87 381) over {a,b,.,/} plus all <=6-component sequences of {'', ., .., a, bb}: "
